@@ -215,6 +215,7 @@ package experiment
 //@   ensures [executor] result1 == nil ==> !isNilIface(result0)
 //@ func (*Experiment).Execute
 //@   props C20
+//@   abstracts select
 //@   requires e != nil && e.Trials == nil && evaluator != nil && startGenome != nil
 //@   requires gTrial == -1 && gStartedFor == -1 && gFinishedFor == -1
 //@   requires neat.ErrNEATOptionsNotFound != nil
